@@ -100,7 +100,7 @@ HcPositiveSlopeIsFlat == (Done /\ o.rule = "positive_slope") => o.log = HcHorz0(
 -----------------------------------------------------------------------------
 (* BFFM2 NOx: least-squares slope of log10 EI against log10 fuel flow over   *)
 (* the four calibration points (decade exponents)                            *)
-NxF == {-1, 0, 1}
+NxF == {-3, -1, 0, 1}     \* -3: a calibration flow of 1 g/s, below the 10 g/s stand-in used for non-positive flows
 NxE == {0, 1, 2}
 NoxCases == {x \in [f1 : NxF, f2 : NxF, f3 : NxF, f4 : NxF, e1 : NxE, e2 : NxE, e3 : NxE, e4 : NxE] :
                 ~(x.f1 = x.f2 /\ x.f2 = x.f3 /\ x.f3 = x.f4)}
@@ -108,7 +108,14 @@ SumF(x) == x.f1 + x.f2 + x.f3 + x.f4
 SumE(x) == x.e1 + x.e2 + x.e3 + x.e4
 NoxSlope(x) == R(4 * (x.f1 * x.e1 + x.f2 * x.e2 + x.f3 * x.e3 + x.f4 * x.e4) - SumF(x) * SumE(x),
                  4 * (x.f1 * x.f1 + x.f2 * x.f2 + x.f3 * x.f3 + x.f4 * x.f4) - SumF(x) * SumF(x))
-NoxSpec == Start(NoxCases) /\ [][Step([slope |-> NoxSlope(c)])]_vars
+\* the fitted line: log10 EI = slope * log10 flow + intercept, intercept = (SumE - slope SumF) / 4;
+\* evaluated at the flows 1 g/s, 0.1, 1, 10 kg/s; a non-positive flow is evaluated as 10 g/s (exponent -2)
+NoxIntercept(x) == Div(Sub(I(SumE(x)), Mul(NoxSlope(x), I(SumF(x)))), I(4))
+NoxAt(x, e) == Add(Mul(NoxSlope(x), I(e)), NoxIntercept(x))
+NoxEvalExps == <<-3, -1, 0, 1, -2>>
+NoxSpec == Start(NoxCases) /\ [][Step([slope |-> NoxSlope(c), logs |-> [k \in 1..5 |-> NoxAt(c, NoxEvalExps[k])]])]_vars
+\* a positive flow is never replaced: the fitted value at 1 g/s differs from the one at 10 g/s whenever the slope is not zero
+NoxSmallFlowsFitted == Done => (o.slope # I(0) => o.logs[1] # o.logs[5])
 
 -----------------------------------------------------------------------------
 (* FOA3 volatile PM: piecewise-linear delta(thrust %) table, in 1/100 mg/g;  *)
